@@ -17,6 +17,7 @@ IsEvent(k) == l <= Len(Rec) /\ ev.ev = k /\ l' = l + 1
 TrCase == IsEvent("case") /\ cur' = ev
 
 V(clause, subj, exp, got) == [prop |-> "C17", id |-> cur.id, clause |-> clause, subj |-> subj, exp |-> exp, got |-> got]
+NamedFailures == {"missing_input", "bad_xml", "unresolved_import", "unsupported_binding", "unsupported_binding_parts", "reachable_unreadable"}
 OldOf(s) == IF s.pre = "absent" THEN "absent" ELSE "old"
 
 \* the clauses of C17 on one observed run; lib = "ok" | "err" is what the library does with the same files
@@ -25,6 +26,10 @@ RunViol(s, r) ==
      {V("exit_iff_library", r.cwd, IF r.lib = "ok" /\ s.fail # "out_dir_missing" THEN "0" ELSE "non-zero", r.exit) :
          x \in {1} \cap (IF (r.exit = "ok") = (r.lib = "ok" /\ s.fail # "out_dir_missing") THEN {} ELSE {1})}
   \cup {V("same_bytes_as_library", r.cwd, "new", r.outf) : x \in {1} \cap (IF r.exit = "ok" /\ r.outf # "new" THEN {1} ELSE {})}
+     \* the inputs the property names as failing (missing file, unreadable sibling, malformed XML, unresolved import,
+     \* unsupported binding) must fail - whatever the library thinks of them - and leave the old output alone
+  \cup {V("named_failure_fails", r.cwd \o "/" \o s.fail, "non-zero, old output kept", r.exit \o ", " \o r.outf) :
+         x \in {1} \cap (IF s.fail \in NamedFailures /\ (r.exit = "ok" \/ r.outf # OldOf(s)) THEN {1} ELSE {})}
   \cup {V("failure_keeps_old_output", r.cwd, OldOf(s), r.outf) : x \in {1} \cap (IF r.exit # "ok" /\ r.outf # OldOf(s) THEN {1} ELSE {})}
   \cup {V("written_where_specified", r.cwd, "no other file", "stray file") : x \in {1} \cap (IF r.stray THEN {1} ELSE {})}
   \cup {V("no_crash", r.cwd, "exit", r.exit) : x \in {1} \cap (IF r.exit \in {"ok", "error"} THEN {} ELSE {1})}
